@@ -26,12 +26,15 @@ def stateless_stage(rng):
         return ('timeslice', gen.DATE_EXPR, rng.choice([60, 300, 3600, 86400]) * 10**9, rng.choice([None, 'slice']))
     if r < 0.90:
         return ('logfmt', gen.col_ref(rng, ['s', 'lf']))
-    return ('parse', rng.choice(['* *', 'a*', '*=*', '*']), ['p1', 'p2'][:rng.choice(['* *', 'a*', '*=*', '*']).count('*')] or ['p1'],
-            gen.col_ref(rng, ['s', 't', 'k']), rng.random() < 0.5, rng.random() < 0.3)
+    pat = rng.choice(['* *', 'a*', '*=*', '*', 'x*', '*a *'])
+    # the target fields are sometimes fields that SOME rows already carry: a non-matching `nodrop` row keeps (or gets null for) them
+    # on its own account, whatever earlier rows looked like
+    names = rng.sample(['p1', 'p2', 'a', 'k', 'g', 't', 'flag', 'b', 's'] if rng.random() < 0.5 else ['p1', 'p2'], pat.count('*'))
+    return ('parse', pat, names, gen.col_ref(rng, ['s', 't', 'k']), rng.random() < 0.6, rng.random() < 0.3)
 
 
 def fix_parse(st):
-    if st[0] == 'parse':
+    if st[0] == 'parse' and (not st[2] or len(st[2]) != st[1].count('*')):
         n = st[1].count('*')
         return ('parse', st[1], ['p%d' % (i + 1) for i in range(n)], st[3], st[4], st[5])
     return st
